@@ -38,10 +38,11 @@ pub fn generate_group(run_seed: u64, g: usize) -> GroupSpec {
     for i in 0..g {
         let mut m = base.clone();
         if i > 0 {
-            m.cfg.threads = match r.below(4) {
-                0 => 1,
-                1 => 2,
-                _ => r.range(2, 8) as u32,
+            m.cfg.threads = match r.below(8) {
+                0 | 1 => 1,
+                2 | 3 => 2,
+                4..=6 => r.range(2, 8) as u32,
+                _ => r.range(9, 16) as u32,
             };
             let floor = m.gen.max_len as u64 + 64;
             m.cfg.queue_capacity = if r.pct(50) { format!("{}", floor + r.below(3 * floor)) } else { "2G".into() };
